@@ -86,9 +86,9 @@ fn run(ctx: &mut Ctx) {
             } else if quick {
                 if n <= 3 { 50 } else { 6 }
             } else if n <= 3 {
-                400
+                1000
             } else {
-                50
+                150
             };
             for qs in placements(k, n) {
                 for a in 0..n_angles {
